@@ -80,7 +80,8 @@ def eval_case(job):
         key = ('on' if caching else 'off') + (('/' + ambient) if ambient else '')
         rendered = []
         pre_completed = any(o[0] == 'pre_completed' for o in outs)
-        outs = [o for o in outs if o[0] != 'pre_completed']
+        data_modified = any(o[0] == 'data_modified' for o in outs)
+        outs = [o for o in outs if o[0] not in ('pre_completed', 'data_modified')]
         for out in outs:
             if out[0] == 'rows':
                 rendered.append(('rows', [surface.render_row(r) for r in out[1]]))
@@ -89,7 +90,7 @@ def eval_case(job):
             else:
                 rendered.append(out)
         res['impl'][key] = {'outs': rendered, 'hits': probe.hits, 'nonuniform': probe.nonuniform,
-                            'pre_completed': pre_completed}
+                            'pre_completed': pre_completed, 'data_modified': data_modified}
     return res
 
 
